@@ -21,7 +21,7 @@
 From Coq Require Import List Arith NArith Bool Permutation.
 Import ListNotations.
 Require Import Celma.Common.Res Celma.Text.TextBlockModel Celma.Text.TextBlockProofs.
-Require Import Celma.Text.Usage Celma.Text.UsageProofs Celma.Text.UsageDigest.
+Require Import Celma.Text.Usage Celma.Text.UsageProofs Celma.Text.UsageDigest Celma.Text.UsageSub.
 Require Celma.ArgH.Key Celma.ArgH.Table.
 
 (** usage_section: the usage is the mandatory section followed by the optional
@@ -237,6 +237,65 @@ Proof.
 Qed.
 Print Assumptions C18_usage_texts.
 
+(** sub-groups (one level; [eval_cmd_sg]: a main handler that owns the
+    sub-group handlers [sgs], each created with the constructor that shares the
+    usage settings).  The usage printed for the i-th sub-group is the usage of
+    exactly that handler's arguments ([sub_args g]) under the settings in force
+    at that moment ([hp s]) - so every theorem above applies to it: it lists
+    the visible arguments of the sub-group, each once, in their sections, and
+    its text reads as the digest of those arguments.  The display options of
+    the main command line act on the same settings as in a handler without
+    sub-groups (second statement), hence a display requested there is in force
+    for a sub-group usage printed afterwards (third statement). *)
+Theorem C18_subgroup_usage :
+  forall t1 t2 sgs f width margs s i s',
+    eval_cmd_sg t1 t2 sgs f width margs s (CmdSubHelp i) = Ok s' ->
+    exists g, nth_error sgs i = Some g /\
+      hout s' = hout s ++ usage_lines (hp s) width (sub_args g) /\
+      herr s' = herr s /\ hp s' = hp s /\ hprinted s' = hprinted s /\
+      (let p := hp s in let args := sub_args g in
+       let m := max_key_length p args in let same := m <? MaxNameLength in
+       usage_lines p width args =
+       S_USAGE :: (section_lines p width same m true false (listed p true args)
+                   ++ section_lines p width same m false (negb (is_nil_l (listed p true args)))
+                        (listed p false args)) ++ [[]]) /\
+      (forall q : arg -> bool,
+          length (filter q (listed (hp s) true (sub_args g) ++ listed (hp s) false (sub_args g))) =
+          length (filter (fun a => q a && visible (hp s) a) (sub_args g))) /\
+      ((forall a, In a (sub_args g) -> visible (hp s) a = true -> key_good (key_text (cont (hp s)) a)) ->
+       digest (unlines (usage_lines (hp s) width (sub_args g))) = spec_digest (hp s) (sub_args g)).
+Proof.
+  intros t1 t2 sgs f width margs s i s' H.
+  destruct (sub_help_spec _ _ _ _ _ _ _ _ _ H) as (g & Hg & Ho & He & Hp & Hpr & _).
+  exists g. repeat split; try assumption.
+  - cbn zeta. unfold usage_lines. rewrite print_structure. reflexivity.
+  - intros q. apply listed_count.
+  - apply usage_digest.
+Qed.
+Print Assumptions C18_subgroup_usage.
+
+Theorem C18_subgroup_settings_shared :
+  (forall t1 t2 sgs f width margs s c,
+      is_setting c = true ->
+      eval_cmd_sg t1 t2 sgs f width margs s c = eval_cmd f width (margs ++ map sub_arg sgs) s c) /\
+  (forall t1 t2 sgs f width margs s,
+      eval_cmd_sg t1 t2 sgs f width margs s CmdHelp =
+      eval_cmd_txt t1 t2 f width (margs ++ map sub_arg sgs) s CmdHelp) /\
+  (forall t1 t2 sgs f width margs s c s1 i s2,
+      is_setting c = true ->
+      eval_cmd_sg t1 t2 sgs f width margs s c = Ok s1 ->
+      eval_cmd_sg t1 t2 sgs f width margs s1 (CmdSubHelp i) = Ok s2 ->
+      exists g, nth_error sgs i = Some g /\
+        hout s2 = hout s1 ++ usage_lines (hp s1) width (sub_args g) /\
+        (c = CmdPrintHidden -> print_hidden (hp s1) = true) /\
+        (c = CmdPrintDeprecated -> print_deprecated (hp s1) = true) /\
+        (c = CmdHelpShort -> cont (hp s1) = CShort) /\
+        (c = CmdHelpLong -> cont (hp s1) = CLong)).
+Proof.
+  split; [exact setting_delegates|]. split; [exact main_help_delegates|exact sub_help_after_setting].
+Qed.
+Print Assumptions C18_subgroup_settings_shared.
+
 (* ------------------------------------------------------------------ *)
 (** Non-vacuity and the witnesses against the pinned code. *)
 Definition s_ (l : list nat) : list N := map N.of_nat l.
@@ -282,6 +341,24 @@ Example C18_nonvacuous_digest :
 Proof.
   split; [|vm_compute; reflexivity].
   intros a [<-|[<-|[]]] _; apply key_text_good; vm_compute; repeat constructor; discriminate.
+Qed.
+
+(** sub-group: "--print-hidden -ih" lists the hidden argument of the sub-group
+    (7 lines: Usage:, caption, -h, -s,--secret, [hidden], empty line ... );
+    printing with a private copy of the settings taken at construction (the
+    seeded variant [sub_usage_copied]) would not *)
+Definition g_input : sub_group :=
+  mksg {| Key.kc := 105%N; Key.kw := [] |} (s_ [105;110]) 1%N [a_secret].
+Example C18_nonvacuous_subgroup :
+  (* flags: hfHelpShort | hfArgHidden | hfUsageCont *)
+  (exists s, eval_case_sg None None [g_input] 33281%N 80 [] [CmdPrintHidden; CmdSubHelp 0] = Ok s /\
+             hout s = usage_lines (mkparams true false CAll) 80 (sub_args g_input) /\
+             listed (hp s) false (sub_args g_input) = [std_arg CH_h [] D_HELP; a_secret]) /\
+  listed (start_params 33281%N) false (sub_args g_input) = [std_arg CH_h [] D_HELP] /\
+  sub_usage_copied 33281%N 80 g_input <> usage_lines (mkparams true false CAll) 80 (sub_args g_input).
+Proof.
+  split; [eexists; split; [vm_compute; reflexivity|split; reflexivity]|].
+  split; [reflexivity|]. vm_compute. discriminate.
 Qed.
 
 (** pinned code, defect 1: --help-arg=inp finds --input but prints no description *)
